@@ -12,7 +12,7 @@ use crate::parser::{
     CsrImm, HasRegisterSets, InstructionProperties, LabelString, LabelStringToken,
     RegisterProperties,
 };
-use crate::parser::{LoadType, ParserNode, Register};
+use crate::parser::{LoadType, ParserNode, Register, StoreType};
 use crate::passes::{CfgError, GenerationPass};
 
 use super::memory_location::MemoryLocation;
@@ -273,6 +273,11 @@ impl GenerationPass for AvailableValuePass {
                 );
                 rule_perform_math_ops(&node.node(), &mut out_reg_n, &node.reg_values_in());
                 rule_push_value_to_csr_memory(&node.node(), &mut out_memory_n, &out_reg_n);
+                rule_store_through_stack_alias(
+                    &node.node(),
+                    &mut out_memory_n,
+                    &node.reg_values_in(),
+                );
                 rule_known_values_to_stack(&mut out_memory_n, &node.reg_values_in());
                 // TODO stack reset?
 
@@ -466,6 +471,45 @@ fn rule_value_from_stack(
                 if let Some(stack_val) = memory_in.get(&MemoryLocation::StackOffset(*off)) {
                     available_out.insert(reg.get_cloned(), stack_val.clone());
                 }
+            }
+        }
+    }
+}
+
+/// Rule that applies a store whose address register is known to point into
+/// the stack frame.
+///
+/// A slot is named by its distance from the stack pointer at the entry of the
+/// function, whichever register holds the address: `addi t1, sp, 4` followed by
+/// `sw zero, 0(t1)` writes the same slot as `sw zero, 4(sp)`. (A store through
+/// sp itself is handled with the gen and kill of the node.)
+fn rule_store_through_stack_alias(
+    node: &ParserNode,
+    memory_out: &mut AvailableValueMap<MemoryLocation>,
+    available_in: &AvailableValueMap<Register>,
+) {
+    if let ParserNode::Store(store) = node {
+        if store.rs1.get().is_stack_pointer() {
+            return;
+        }
+        if let Some(AvailableValue::OriginalRegisterWithScalar(reg, off)) =
+            available_in.get(store.rs1.get())
+        {
+            if !reg.is_stack_pointer() {
+                return;
+            }
+            let slot = off.wrapping_add(store.imm.get().value());
+            match store.inst.get() {
+                // A word store fills the slot
+                StoreType::Sw => memory_out.insert(
+                    MemoryLocation::StackOffset(slot),
+                    AvailableValue::RegisterWithScalar(store.rs2.get_cloned(), 0),
+                ),
+                // A narrower store changes a part of every word it overlaps
+                StoreType::Sb => (-3..1)
+                    .for_each(|b| memory_out.remove(&MemoryLocation::StackOffset(slot.wrapping_add(b)))),
+                StoreType::Sh => (-3..2)
+                    .for_each(|b| memory_out.remove(&MemoryLocation::StackOffset(slot.wrapping_add(b)))),
             }
         }
     }
